@@ -17,7 +17,7 @@ type Clause struct {
 	Props []string
 	File  string
 	Line  int
-	Free  bool // "assume"-like clause flagged trusted (never used for function contracts)
+	Auto  bool // produced by the inference pass (file verif_contracts_auto.go)
 }
 
 type LoopSpec struct {
@@ -61,6 +61,7 @@ type Contracts struct {
 	Funcs       map[string]*Contract
 	NonNilField map[string]bool // "T.f"
 	NonNilElem  map[string]bool // type string of the slice/map type
+	NonNilBoxed map[string]bool // pointer types never boxed as typed nil in interfaces
 	Specs       map[string]*SpecFunc
 	TypeInvs    []*TypeInv
 	FoldedKeys  map[string]bool // "T.f" or global name
@@ -87,6 +88,7 @@ func loadContracts(dir string) (*Contracts, error) {
 		Funcs:       map[string]*Contract{},
 		NonNilField: map[string]bool{},
 		NonNilElem:  map[string]bool{},
+		NonNilBoxed: map[string]bool{},
 		Specs:       map[string]*SpecFunc{},
 		FoldedKeys:  map[string]bool{},
 		NlfreeField: map[string]bool{},
@@ -146,7 +148,7 @@ func (cs *Contracts) parseFile(file, src string) {
 				cs.errf(file, ln, "%v", err)
 				return nil
 			}
-			return &Clause{Kind: kind, Expr: e, Text: txt, Props: props, File: file, Line: ln}
+			return &Clause{Kind: kind, Expr: e, Text: txt, Props: props, File: file, Line: ln, Auto: strings.Contains(file, "_auto")}
 		}
 		switch kw {
 		case "func":
@@ -157,11 +159,12 @@ func (cs *Contracts) parseFile(file, src string) {
 					name = strings.TrimSpace(name[:j])
 				}
 			}
-			if _, dup := cs.Funcs[name]; dup {
-				cs.errf(file, ln, "duplicate contract for %s", name)
+			if old, dup := cs.Funcs[name]; dup {
+				cur = old // blocks for the same function in several files are merged
+			} else {
+				cur = &Contract{Fn: name, File: file, Line: ln}
+				cs.Funcs[name] = cur
 			}
-			cur = &Contract{Fn: name, File: file, Line: ln}
-			cs.Funcs[name] = cur
 			curLoop = nil
 		case "props":
 			if cur != nil {
@@ -269,6 +272,9 @@ func (cs *Contracts) parseFile(file, src string) {
 			cur = nil
 		case "nonnil_elems":
 			cs.NonNilElem[strings.TrimSpace(rest)] = true
+			cur = nil
+		case "nonnil_boxed":
+			cs.NonNilBoxed[strings.TrimSpace(rest)] = true
 			cur = nil
 		case "folded_keys":
 			for _, f := range strings.Fields(rest) {
